@@ -134,12 +134,17 @@ def dy(rng, lo, hi, den=4):
     return str(Fr(rng.randint(lo * den, hi * den), den))
 
 def gen_case(rng):
-    nn = rng.randint(2, 3)
+    perm_mid = rng.random() < 0.15     # 4 nodes, one edge per source node in the order 0, 2, 1, 3 (permuted in the middle only)
+    nn = 4 if perm_mid else rng.randint(2, 3)
     nodes = [[NAMES[i], dy(rng, 0, 2), dy(rng, -2, 2), dy(rng, -1, 1)] for i in range(nn)]
     pairs = [(s, t) for s in range(nn) for t in range(nn) if s != t]
     rng.shuffle(pairs)
     edges = [[s, t, dy(rng, -1, 1)] for s, t in pairs[:rng.randint(1, min(3, len(pairs)))]]
-    if rng.random() < 0.35:       # parallel edges between the same pair of variables (their weights add)
+    if perm_mid:
+        edges = [[s0, rng.choice([t for t in range(nn) if t != s0]), dy(rng, -1, 1)] for s0 in (0, 2, 1, 3)]
+        if rng.random() < 0.5:       # the same with the targets: one edge into every node, targets in the order 0, 2, 1, 3
+            edges = [[rng.choice([s0 for s0 in range(nn) if s0 != t]), t, dy(rng, -1, 1)] for t in (0, 2, 1, 3)]
+    elif rng.random() < 0.35:       # parallel edges between the same pair of variables (their weights add)
         for _ in range(rng.randint(1, 2)):
             s0, t0, _ = rng.choice(edges)
             edges.append([s0, t0, dy(rng, -1, 1)])
@@ -197,7 +202,7 @@ def gen_case(rng):
     else:
         outs = rng.sample(range(nn), rng.randint(1, 2))
         outputs = [[["u", "v"][j], f"{NAMES[i]}/op/x"] for j, i in enumerate(outs)]
-    case = dict(nodes=nodes, edges=edges, pmap=pmap, grid=grid, permute=permute, outputs=outputs, vectorize=rng.random() < 0.6)
+    case = dict(nodes=nodes, edges=edges, pmap=pmap, grid=grid, permute=permute, outputs=outputs, vectorize=perm_mid or rng.random() < 0.6)
     if rng.random() < 0.5:                       # extrinsic input series (non-constant, dyadic) on 1-2 nodes
         case["inputs"] = [[i, [dy(rng, -2, 2, 2) for _ in range(int(round(T_END / DT)))]] for i in rng.sample(range(nn), rng.randint(1, min(2, nn)))]
     if hier:
